@@ -591,6 +591,34 @@ func TestCheck(t *testing.T) {
 		})
 	})
 
+	r.Phase("W3: a text parsed, then N distinct other texts (N = 1..200000 on a ladder around powers of two), then the same text again", func() {
+		r.Serial(func(w *vkit.W) {
+			filler := uint64(0)
+			for li, n := range []int{1, 2, 3, 31, 32, 33, 63, 64, 65, 127, 128, 129, 255, 256, 257, 511, 512, 513, 1023, 1024, 1025, 2047, 2048, 2049, 4096, 8192, 65536, 200000} {
+				x := format(0x0123456789abcdef^uint64(li), 0xfedcba9876543210^uint64(n))
+				y := "urn:uuid:" + strings.ToUpper(x)
+				for _, rule := range rules {
+					judge(Case{Kind: "text", Text: vkit.B(x), Rule: rule}, w)
+					judge(Case{Kind: "text", Text: vkit.B(y), Rule: rule}, w)
+				}
+				for k := 0; k < n; k++ {
+					filler++
+					t := format(filler*0x9e3779b97f4a7c15, filler)
+					if filler%2 == 0 {
+						_, _ = uu.DefaultParser(t, 0)
+					} else {
+						_, _ = uu.DefaultParser([]byte("urn:uuid:"+t), uu.RuleDisableUpperCaseDigits)
+					}
+				}
+				for _, rule := range rules {
+					judge(Case{Kind: "text", Text: vkit.B(x), Rule: rule}, w)
+					judge(Case{Kind: "text", Text: vkit.B(y), Rule: rule}, w)
+				}
+				w.EvalRandom(vkit.Hash64("W3", x), true)
+			}
+		})
+	})
+
 	r.Phase(fmt.Sprintf("W: %d conventional special texts (null, nil, the nil UUID, braces, every prefix of urn:uuid:, ...) x 4 rule sets x limits", len(ref.ConventionalTexts)), func() {
 		for _, lim := range []int{0, -1, 3} {
 			restore := setLimit(lim)
